@@ -23,7 +23,7 @@ RULE = (
     "forward reference unresolved at decoration and at the first call, resolved later, vs the same function not called early. "
     "non-trivial = distinct history with >=2 calls"
 )
-RULE += " Also: look-alike aliases (same axis names, other expression); functions made by one factory with different defaults; a value-dependent user annotation class shared by two functions and a dataclass; provider histories whose bodies update a provider; search replays: sibling dependence, a new interpreter."
+RULE += " Also: look-alike aliases (same axis names, other expression); functions made by one factory with different defaults; a value-dependent user annotation class shared by two functions and a dataclass; provider histories whose bodies update a provider; search replays: sibling dependence, a new interpreter. Providers of one type with / without the method, class providers, a long-lived mapping object that is no dict."
 
 
 def cases(tier, rng, run):
